@@ -56,6 +56,16 @@ def _numbagg_wrapper(
             if np.issubdtype(array.dtype, from_):
                 array = array.astype(to_, copy=False)
 
+    if (
+        dtype is not None
+        and array.dtype.kind in "iu"
+        and np.dtype(dtype).kind in "iu"
+        and np.dtype(dtype).itemsize > array.dtype.itemsize
+    ):
+        # numbagg accumulates in the input dtype: widen narrow integers first
+        # so that sums and products do not wrap before the final cast
+        array = array.astype(dtype)
+
     func_ = getattr(numbagg.grouped, f"group_{func}")
 
     result = func_(
